@@ -142,6 +142,27 @@ def parser_tie(res, seed, n, dist):
                 k = next((j for j in range(min(len(mi), len(iu))) if mi[j] != iu[j]), 0)
                 res.add_broken('correspondence', 'Coq model of the declaration parser (parse_data) differs from derive/src/parse.rs',
                                f"item `{srcof[name][:300]}`: model ...{mi[max(0, k - 60):k + 120]} | impl ...{iu[max(0, k - 60):k + 120]}")
+    # attribute interpretation (derive/src/shared.rs vs coq/parse/ParseInterp.v): struct level and per field
+    impl_int, model_int = {}, {}
+    for l in open(dump):
+        m = re.match(r'ITEM (\S+) (F?INTERP\d*) (.*)', l.strip())
+        if m: impl_int.setdefault(m.group(1), {})[m.group(2)] = m.group(3).strip()
+    if drv:
+        for l in lines:
+            m = re.match(r'ITEM (\S+) (F?INTERP\d*) (.*)', l)
+            if m: model_int.setdefault(m.group(1), {})[m.group(2)] = m.group(3).strip()
+    nint = 0
+    for name, d in impl_int.items():
+        if name not in okflag or not drv or impl_item.get(name) != model_item.get(name): continue
+        md = model_int.get(name, {})
+        for tag, v in d.items():
+            nint += 1
+            if md.get(tag) != v:
+                nd += 1
+                if nd == 1:
+                    res.add_broken('correspondence', 'Coq model of the attribute interpretation (derive/src/shared.rs) differs from the implementation',
+                                   f"item `{srcof[name][:300]}` {tag}: model {md.get(tag)} | impl {v}")
+    res.coverage['attribute_interpretations_compared'] = nint
     res.coverage['items_compared'] = nit
     res.coverage['printer_types_compared'] = npr
     res.coverage['parser_types_compared'] = len([1 for n_, _, _ in types if n_ in impl and n_ in model])
